@@ -167,6 +167,14 @@ theorem step_tasksExt {cfg : Cfg} {s s' : St} {a : Act} (hna : ∀ i, a ≠ .tas
     split at h
     · injection h with h; subst h; exact tasksExt_refl s
     · simp at h
+  | deadline c0 => simp only [step] at h; split at h <;> simp at h; subst h; exact tasksExt_refl s
+  | watch c0 =>
+    simp only [step] at h
+    repeat' (split at h)
+    all_goals (try (simp at h; done))
+    all_goals (injection h with h; subst h)
+    · simpa [TasksExt] using tasksExt_refl s
+    · exact tasksExt_refl s
   | kick c0 =>
     simp only [step] at h
     split at h
@@ -283,6 +291,23 @@ theorem step_A {cfg : Cfg} {s s' : St} {a : Act} (hat : cfg.atomicSet = true) (h
     split at h
     · injection h with h; subst h; exact hA c hc (hm hc hatt)
     · simp at h
+  | deadline c0 =>
+    intro c hc hatt
+    have hm := step_mono hJP h c
+    simp only [step] at h
+    split at h <;> simp at h
+    subst h; exact hA c hc (hm hc hatt)
+  | watch c0 =>
+    intro c hc hatt
+    have hm := step_mono hJP h c
+    have hn := step_nconns h
+    simp only [step] at h
+    repeat' (split at h)
+    all_goals (try (simp at h; done))
+    all_goals (injection h with h; subst h)
+    · simp only [closeConn_nconns, closeConn_inFlight] at hc ⊢
+      exact hA c hc (hm hc hatt)
+    · exact hA c hc (hm hc hatt)
   | kick c0 =>
     intro c hc hatt
     have hm := step_mono hJP h c
@@ -323,6 +348,8 @@ theorem step_TC {cfg : Cfg} {s s' : St} {a : Act} (hTC : TC s) (h : step cfg s a
   | spawn m d ev => exact TC_ext hTC (step_nconns h) (step_tasksExt (by intro i; simp) h)
   | create d tag => exact TC_ext hTC (step_nconns h) (step_tasksExt (by intro i; simp) h)
   | release c0 => exact TC_ext hTC (step_nconns h) (step_tasksExt (by intro i; simp) h)
+  | deadline c0 => exact TC_ext hTC (step_nconns h) (step_tasksExt (by intro i; simp) h)
+  | watch c0 => exact TC_ext hTC (step_nconns h) (step_tasksExt (by intro i; simp) h)
   | kick c0 => exact TC_ext hTC (step_nconns h) (step_tasksExt (by intro i; simp) h)
   | drop c0 => exact TC_ext hTC (step_nconns h) (step_tasksExt (by intro i; simp) h)
   | quit => exact TC_ext hTC (step_nconns h) (step_tasksExt (by intro i; simp) h)
@@ -334,6 +361,8 @@ theorem step_TN {cfg : Cfg} {s s' : St} {a : Act} (hTN : TN s) (h : step cfg s a
   | spawn m d ev => exact TN_ext hTN (step_tasksExt (by intro i; simp) h)
   | create d tag => exact TN_ext hTN (step_tasksExt (by intro i; simp) h)
   | release c0 => exact TN_ext hTN (step_tasksExt (by intro i; simp) h)
+  | deadline c0 => exact TN_ext hTN (step_tasksExt (by intro i; simp) h)
+  | watch c0 => exact TN_ext hTN (step_tasksExt (by intro i; simp) h)
   | kick c0 => exact TN_ext hTN (step_tasksExt (by intro i; simp) h)
   | drop c0 => exact TN_ext hTN (step_tasksExt (by intro i; simp) h)
   | quit => exact TN_ext hTN (step_tasksExt (by intro i; simp) h)
@@ -346,14 +375,16 @@ theorem step_W {cfg : Cfg} {s s' : St} {a : Act} (hJP : JP s) (hTC : TC s) (hTN 
   | spawn m d ev => exact W_ext hTC hW (step_tasksExt (by intro i; simp) h) (fun c hc => step_mono hJP h c hc)
   | create d tag => exact W_ext hTC hW (step_tasksExt (by intro i; simp) h) (fun c hc => step_mono hJP h c hc)
   | release c0 => exact W_ext hTC hW (step_tasksExt (by intro i; simp) h) (fun c hc => step_mono hJP h c hc)
+  | deadline c0 => exact W_ext hTC hW (step_tasksExt (by intro i; simp) h) (fun c hc => step_mono hJP h c hc)
+  | watch c0 => exact W_ext hTC hW (step_tasksExt (by intro i; simp) h) (fun c hc => step_mono hJP h c hc)
   | kick c0 => exact W_ext hTC hW (step_tasksExt (by intro i; simp) h) (fun c hc => step_mono hJP h c hc)
   | drop c0 => exact W_ext hTC hW (step_tasksExt (by intro i; simp) h) (fun c hc => step_mono hJP h c hc)
   | quit => exact W_ext hTC hW (step_tasksExt (by intro i; simp) h) (fun c hc => step_mono hJP h c hc)
 
 /-- the invariant is preserved by every step of the repaired code that respects `Guard1` -/
 theorem inv1_step {cfg : Cfg} {s s' : St} {a : Act} (hat : cfg.atomicSet = true) (hfr : cfg.foreignReset = false)
-    (hI : Inv1 s) (hG : Guard1 s a) (h : step cfg s a = some s') : Inv1 s' :=
-  ⟨step_JP hI.jp h, step_TC hI.tc h, step_TN hI.tn h, step_W hI.jp hI.tc hI.tn hI.w h,
+    (hwc : cfg.watcherCloses = true) (hI : Inv1 s) (hG : Guard1 s a) (h : step cfg s a = some s') : Inv1 s' :=
+  ⟨step_JP hwc hI.jp h, step_TC hI.tc h, step_TN hI.tn h, step_W hI.jp hI.tc hI.tn hI.w h,
    step_A hat hfr hI.jp hI.tc hI.w hI.a hG h⟩
 
 theorem inv1_init (s : St) (h0 : s.nconns = 0) (h1 : s.ntasks = 0) : Inv1 s :=
